@@ -2,11 +2,109 @@ package main
 
 import (
 	"bytes"
+	"encoding/json"
+	"fmt"
+	"os"
 	"os/exec"
+	"path/filepath"
+	"regexp"
+	"strings"
+	"sync"
 )
 
-// replayWithKit: see replaykit.go (filled in later)
-func replayWithKit(o checkOpts, id string, ob *OblResult, rf *ReplayFile) {}
+// Replay kits: hand-written witness searches over histories of the real code (go test -overlay, nothing is
+// written into /repo).  They run only after an obligation has failed, to attach a failing input to the report.
+type Kit struct {
+	Match string   `json:"match"` // regexp on the obligation name
+	Pkg   string   `json:"pkg"`   // package pattern relative to the repo, e.g. ./packetio
+	Files []string `json:"files"` // files under /verif/replaykit, placed into the package directory
+	Run   string   `json:"run"`   // -run pattern
+	Tags  string   `json:"tags,omitempty"`
+	Race  bool     `json:"race,omitempty"`
+}
+
+type kitFile struct {
+	Kits []Kit `json:"kits"`
+}
+
+type kitResult struct {
+	cmd        string
+	out        string
+	reproduced bool
+}
+
+var (
+	kitMu    sync.Mutex
+	kitCache = map[string]*kitResult{}
+)
+
+func loadKits(verif string) []Kit {
+	var kf kitFile
+	b, err := os.ReadFile(filepath.Join(verif, "replaykit", "kits.json"))
+	if err != nil {
+		return nil
+	}
+	if err := json.Unmarshal(b, &kf); err != nil {
+		fmt.Fprintln(os.Stderr, "govc: kits.json:", err)
+	}
+	return kf.Kits
+}
+
+func replayWithKit(o checkOpts, id string, ob *OblResult, rf *ReplayFile) {
+	for _, k := range loadKits(o.verif) {
+		re, err := regexp.Compile(k.Match)
+		if err != nil || !re.MatchString(ob.Name) {
+			continue
+		}
+		res := runKit(o, id, k)
+		rf.ReplayCmd = res.cmd
+		rf.ReplayOut = truncate(res.out, 6000)
+		rf.Reproduced = res.reproduced
+		if res.reproduced {
+			rf.ReplayNote = "witness search over histories of the real code found an input violating the property (kit " + k.Run + "); the failing history is in replay_output"
+		} else {
+			rf.ReplayNote = "witness search over histories of the real code (kit " + k.Run + ") found no failing input within its budget; the obligation is still undischarged"
+		}
+		return
+	}
+}
+
+func runKit(o checkOpts, id string, k Kit) *kitResult {
+	key := k.Pkg + "|" + k.Run
+	kitMu.Lock()
+	defer kitMu.Unlock()
+	if r, ok := kitCache[key]; ok {
+		return r
+	}
+	dir := filepath.Join(o.verif, "replays", id)
+	os.MkdirAll(dir, 0o755)
+	ov := map[string]map[string]string{"Replace": {}}
+	for _, f := range k.Files {
+		dst := filepath.Join(o.repo, strings.TrimPrefix(k.Pkg, "./"), filepath.Base(f))
+		ov["Replace"][dst] = filepath.Join(o.verif, "replaykit", f)
+	}
+	ovPath := filepath.Join(dir, "overlay_"+sanitizeFile(k.Run)+".json")
+	writeJSON(ovPath, ov)
+	secs := 15
+	if o.tier == "thorough" {
+		secs = 60
+	}
+	seed := envInt("VERIF_SEED", 1)
+	race := ""
+	if k.Race {
+		race = " -race"
+	}
+	tags := ""
+	if k.Tags != "" {
+		tags = " -tags " + k.Tags
+	}
+	cmd := fmt.Sprintf("cd %s && GOFLAGS=-mod=mod GOPROXY=off GOSUMDB=off GOTOOLCHAIN=local VERIF_SEED=%d GOVC_WITNESS_SECONDS=%d go test -overlay %s -vet=off%s%s -count=1 -timeout %ds -run '%s' %s",
+		o.repo, seed, secs, ovPath, race, tags, secs+120, k.Run, k.Pkg)
+	out, code := runReplayCmd(cmd)
+	r := &kitResult{cmd: cmd, out: out, reproduced: code != 0 && strings.Contains(out, "WITNESS")}
+	kitCache[key] = r
+	return r
+}
 
 func runReplayCmd(cmd string) (string, int) {
 	c := exec.Command("bash", "-c", cmd)
